@@ -134,6 +134,22 @@ SHARED = [
     ("local x = ONCE; local y = x; local z = y; [x, y, z]", [1, 1, 1]),
     ("local f(a) = a; local v = ONCE; [f(v), f(v)]", [1, 1]),
 ]
+# binders x consumers: every way of naming a value once x every way of using the name several times
+# (B: binder with hole USE, the bound name is `x`; U: consumer expression over x with its value when x = 1)
+_BINDERS = [
+    "local x = ONCE; USE", "(function(x) USE)(ONCE)", "(function(x=ONCE) USE)()", "local f(x) = USE; f(ONCE)",
+    "local o = {v: ONCE}; local x = o.v; USE", "{local x = ONCE, r: USE}.r", "{local x = ONCE, assert x == 1, r: USE}.r",
+    "{local x = ONCE, local y = x, assert y == 1, r: USE}.r", "{local x = ONCE, assert x == 1 : 'm', r: USE, s: x}.r",
+    "local o = {local x = ONCE, assert x == 1, r: USE, s: x}; [o.s, o.r][1]", "{v:: ONCE, local x = self.v, r: USE}.r",
+    "{v:: ONCE, assert self.v == 1, local x = self.v, r: USE}.r", "({v:: ONCE} + {local x = super.v, r: USE}).r",
+    "({v:: ONCE} + {local x = super.v, assert x == 1, r: USE}).r", "[USE for x in [ONCE]][0]", "{[k]: USE for k in ['r'] for x in [ONCE]}.r",
+    "local a = [ONCE]; local x = a[0]; USE", "local x = std.map(function(i) ONCE, [0])[0]; USE", "local x = {a: ONCE}.a; USE",
+    "local o = {x: ONCE}; local x = o.x; assert x == 1; USE", "local x = ONCE; assert x == 1; USE",
+]
+_USES = [("[x, x]", [1, 1]), ("x + x", 2), ("{a: x, b: x}", {"a": 1, "b": 1}), ("local g() = x; g() + g()", 2),
+         ("std.map(function(i) x + i, [0, 1])", [1, 2]), ("{local y = x, assert y == 1, a: y, b: x}", {"a": 1, "b": 1}),
+         ("if x == 1 then x else 0", 1), ("[x][0] + {a: x}.a", 2)]
+SHARED += [(b.replace("USE", "(" + u + ")"), v) for b in _BINDERS for u, v in _USES]
 BOMBS = ["error 'bomb'", "(local f() = f(); f())", "std.trace('BOMB', 0)", "{a: 1}.nope", "(1 / 0)", "[][1]"]
 
 # (call with tailstrict twin): the twin may only turn a value into an error when an argument errors
